@@ -53,3 +53,36 @@ package table
 //@ assigns BufC, BufStore, BufOwned
 //@ ensures err == nil && r != nil && arrid(r) >= old(alloc)
 //@ ensures string(r) == le64(u64of(m.CreatedUnix)) + le64(m.Level)
+//
+//@ globalinv ErrInvalidMagic != nil
+//@ func (*table.Footer).Decode -> err
+//@ props C11
+//@ assigns *f, RdData, RdPos
+//@ ensures forall(Int(a), Int(b), Int(c), Int(d), Int(e), (0 <= a && a <= 18446744073709551615 && 0 <= b && b <= 18446744073709551615 && 0 <= c && c <= 18446744073709551615 && 0 <= d && d <= 18446744073709551615 && 0 <= e && e <= 18446744073709551615 && string(footer) == footerEnc(a, b, c, d, e))
+//@ | ==> ((e == _magic ==> (err == nil && f.MetaBlock.Offset == a && f.MetaBlock.Length == b && f.IndexBlock.Offset == c && f.IndexBlock.Length == d && f.Magic == e)) && (e != _magic ==> err == ErrInvalidMagic)), trig(footerEnc(a, b, c, d, e)))
+//@ ensures len(footer) < 40 ==> err != nil
+//@ ensures err != nil ==> (f.Magic == old(f.Magic) && f.MetaBlock == old(f.MetaBlock) && f.IndexBlock == old(f.IndexBlock))
+//
+//@ func (*table.Meta).Decode -> err
+//@ props C11
+//@ assigns *m, RdData, RdPos
+//@ ensures forall(Int(a), Int(b), (-9223372036854775808 <= a && a <= 9223372036854775807 && 0 <= b && b <= 18446744073709551615 && string(data) == le64(u64of(a)) + le64(b)) ==> (err == nil && m.CreatedUnix == a && m.Level == b), trig(le64(u64of(a)) + le64(b)))
+//@ ensures len(data) < 16 ==> err != nil
+//
+// C11 ownership for the block encoders and Build: the returned bytes are a fresh allocation of this
+// call, never a slice of a pooled buffer. `checked_conversions`: the 16-bit length fields must hold
+// the lengths they encode (they do not for keys/values of 65536 bytes and more: known finding D11).
+//@ func (*table.Data).Encode -> r, err
+//@ props C11 C12
+//@ checked_conversions
+//@ requires wfE(d.Entries)
+//@ assigns BufC, BufStore, BufOwned
+//@ ensures err == nil ==> (r != nil ==> arrid(r) >= old(alloc))
+//@ ensures err != nil ==> r == nil
+//
+//@ func (*table.Index).Encode -> r, err
+//@ props C11 C12
+//@ checked_conversions
+//@ assigns BufC, BufStore, BufOwned
+//@ ensures err == nil ==> (r != nil ==> arrid(r) >= old(alloc))
+//@ ensures err != nil ==> r == nil
